@@ -114,6 +114,20 @@ class ProgGen:
         self.consts_used.add(float(c))
         return c
 
+    def list_items(self, ln):
+        """constant list entries; neighbouring entries are often equal (select chains / jump tables
+        may merge them) and the first entry often recurs later"""
+        items = []
+        for j in range(ln):
+            if items and self.chance(35):
+                self.features.add("list-adjacent-duplicate")
+                items.append(items[-1])
+            elif len(items) > 1 and self.chance(15):
+                items.append(items[0])
+            else:
+                items.append(self.const())
+        return ", ".join(items)
+
     def read(self):
         if self.cfg.own_stack and self.chance(12):
             self.features.add("own-stack-read")
@@ -195,7 +209,7 @@ class ProgGen:
                 if ln is None:
                     self.features.add("excl-D29-long-list")
                 if ln:
-                    return "[" + ", ".join(self.const() for _ in range(ln)) + f"][{i}]"
+                    return "[" + self.list_items(ln) + f"][{i}]"
         if k < 90 and self.cfg.intrinsics:
             self.features.add("select")
             self.in_pure += 1
@@ -438,6 +452,11 @@ class ProgGen:
                 rng, bound = nb, 5
             self.intvar_bound[i] = bound
         out.append(pad + f"for {i} in range({rng}):")
+        if self.cfg.lists and self.intvar_bound[i] <= 5 and self.chance(20):
+            # table lookup with every index the loop produces
+            self.features.add("list-scan")
+            ln = self.n(self.intvar_bound[i], 5)
+            out.append(pad + f"    {self.choice(WRITES)} = [{self.list_items(ln)}][{i}]" + (f" + {self.atom(vars_)}" if self.chance(30) else ""))
         out += self.block(vars_ + [i], ind + 1, depth + 1, in_func, in_loop=True)
         return out
 
@@ -591,7 +610,7 @@ class ProgGen:
         if cfg.lists and self.chance(35):
             for li in range(self.n(1, 2)):
                 ln = self.n(1, 5)
-                items = ", ".join(self.const() for _ in range(ln))
+                items = self.list_items(ln)
                 brk = ("(", ")") if ln > 1 and self.chance(25) else ("[", "]")
                 L.append(f"arr{li} = {brk[0]}{items}{brk[1]}")
                 self.named_lists.append((f"arr{li}", ln))
